@@ -195,10 +195,16 @@ pub(super) fn prepare_call_parameters(
     let mut fn_args: proc_macro2::TokenStream = proc_macro2::TokenStream::new();
     let mut fn_arg_prep: proc_macro2::TokenStream = proc_macro2::TokenStream::new();
 
-    let mut used_idents: Vec<String> = Vec::with_capacity(parameters.len());
+    // Names the generated functions already bind themselves.
+    let mut used_idents: Vec<String> =
+        ["contexts", "edge_name", "parameters", "resolve_info", "_resolve_info"]
+            .into_iter()
+            .map(String::from)
+            .collect();
     for (parameter_name, parameter_type) in parameters {
-        // A parameter named like a Rust keyword (`type`, `match`, `self`, ...) cannot be used
-        // as a binding as it is: escape it, keeping the bindings of one function distinct.
+        // A parameter named like a Rust keyword (`type`, `match`, `self`, ...) or like one of
+        // the generated function's own bindings cannot be used as a binding as it is:
+        // escape it, keeping the bindings of one function distinct.
         let mut ident_name = escaped_rust_name(parameter_name.clone());
         while used_idents.contains(&ident_name) {
             ident_name.push('_');
